@@ -98,6 +98,7 @@ def main(tier):
     models.new_value_independent(P, rep)
     models.feature_folds(P, rep)
     models.seed_copies(P, rep)
+    rep.attempt(models.blend_identity, P, rep)     # equal section values are handed on unchanged
     models.tag_registry(P, rep)
     sib.model_families(P, rep, rule="SIB.composition", kinds=("Composition",), floor=3)
     sib.model_families(P, rep, rule="SIB.temperature", kinds=("Temperature",), floor=5)     # copies of one model treat the incoming value alike
